@@ -30,6 +30,9 @@ def numeric_model(kind, cap0, v0, r0, rng):
             return (st["cap"], v0, r0)
         if kind == "sag":
             return (st["cap"], v0 * (0.75 + 0.25 * frac), r0)
+        if kind == "plateau":
+            # flat discharge curve: the SAME voltage in every state, the impedance alone rises as the battery empties
+            return (st["cap"], v0, max(r0, 0.05) * (1.0 + 4.0 * (1 - frac)))
         return (st["cap"], v0 * (0.8 + 0.2 * frac), r0 * (1.0 + 2.0 * (1 - frac)))
 
     def pfunc():
